@@ -96,12 +96,12 @@ DIMS = {
         "covframe": COVF,
         "man": ["imp", "cont", "both", "mix"],
         "manframe": ["QSW", "TNW"],
-        "mancomment": ["yes", "special", "word"],
+        "mancomment": ["yes", "special", "word", "bracket1"],
         "manpos": ["median", "stop"],
         "manscale": ["other"],
         "ud": [1, 2, "keys", "values", "empty"],
         "kep": ["off"],
-        "name": ["absent", "bracket", "empty"],
+        "name": ["absent", "bracket", "bracket1", "empty"],
         "kw": KWV,
     },
     "oem": {
@@ -124,7 +124,7 @@ DIMS = {
         "cov": ["state"],
         "covframe": COVF,
         "ud": [1, 2, "keys", "values", "empty"],
-        "name": ["empty", "bracket"],
+        "name": ["empty", "bracket", "bracket1"],
         "kw": KWV,
     },
     "tdm": {
@@ -196,13 +196,16 @@ COV0 = [
     [-3.041346050686871e-1, -4.989496988610662e-1, 3.540310904497689e-1, 1.869263192954590e-4, 1.008862586240695e-4, 6.224444338635500e-4],
 ]
 NAME_BRACKET = "GOES 9 [P]"  # the object name of the Blue Book example TLE
+NAME_BRACKET1 = "STARLINK-1008 [DTC]"  # a single blank-free word followed by a bracketed suffix
+ID_BRACKET1 = "2019-074A [DEB]"
 UD = {
     "1": {"FOO": "foo enters"},
     "2": {"FOO": "foo enters", "BAR": "a bar"},
     # names with underscores, two names sharing their last word, one name being the tail of another
     "keys": {"EARTH_MODEL": "EGM-96", "OD_RMS": "1.5", "SOLVE_RMS": "2.5", "RMS": "3.5", "A_B_C": "abc"},
     # free text with the characters the KVN / XML syntaxes use
-    "values": {"NOTE": "a = b", "REF": "see [1] p.3", "CMP": "x<y & z>0", "QUOTE": "it's \"ok\""},
+    "values": {"NOTE": "a = b", "REF": "see [1] p.3", "CMP": "x<y & z>0", "QUOTE": "it's \"ok\"",
+               "TAG": NAME_BRACKET1, "VER": "v2[beta]"},
     "empty": {},
 }
 AXIS = [7000123.4564, 0.0, -0.0004, 0.0, 7546.05345, 0.0]  # zeros and a value that rounds to -0.000000
@@ -210,6 +213,7 @@ COMMENTS = {
     "yes": "Maneuver 1",
     "special": "burn 2: dv = 1.5 [m/s] <nominal> & more",
     "word": "as in the COMMENT of burn 1",
+    "bracket1": "ISS [ZARYA]",
 }
 # (kind, seconds after the epoch, frame, comment, date_pos, thrust given as acceleration)
 MIX = [
@@ -319,8 +323,9 @@ def build_opm(dev):
             coords[0], coords[1] = -25000123.4564, 1.3
     else:
         coords, form = list({"hyperbolic": HYP, "axis": AXIS}.get(dev.get("state"), LEO)), "cartesian"
-    names = {"bracket": NAME_BRACKET, "empty": ""}
-    kw = {} if dev.get("name") == "absent" else dict(name=names.get(dev.get("name"), "SAT 1"), cospar_id="2010-001A")
+    names = {"bracket": NAME_BRACKET, "bracket1": NAME_BRACKET1, "empty": ""}
+    kw = {} if dev.get("name") == "absent" else dict(name=names.get(dev.get("name"), "SAT 1"),
+                                                      cospar_id=ID_BRACKET1 if dev.get("name") == "bracket1" else "2010-001A")
     if dev.get("cls") == "orbit":
         sv = Orbit(coords, date, form, frame, "Kepler", **kw)
     else:
@@ -412,8 +417,8 @@ def build_omm(dev):
         text = text.replace("25544U", "25544C")  # letters do not enter the checksum
     if dev.get("name") == "empty":
         text = text.split("\n", 1)[1]  # two-line form: no name
-    elif dev.get("name") == "bracket":
-        text = NAME_BRACKET + "\n" + text.split("\n", 1)[1]
+    elif dev.get("name") in ("bracket", "bracket1"):
+        text = (NAME_BRACKET if dev["name"] == "bracket" else NAME_BRACKET1) + "\n" + text.split("\n", 1)[1]
     orb = Tle(text).orbit()
     if dev.get("source") == "manual":
         d = orb._data
@@ -429,6 +434,8 @@ def build_omm(dev):
             revolutions=d["revolutions"], name=d["name"], cospar_id=d["cospar_id"],
             classification_type=d["tle"].classification, ephemeris_type=d["tle"].type,
         )
+    if dev.get("name") == "bracket1":
+        orb.cospar_id = ID_BRACKET1
     if dev.get("tle") == "wrap":
         # angles that round to 360.0000 / 0.0000 at the written resolution
         orb[1] = 359.99996 * DEG
